@@ -34,6 +34,12 @@ func init() {
 		f.nat("NumHashTypes", uint64(len(definition.HashTypeDigestSizes)))
 		f.nat("LegacyPillarType", uint64(definition.LegacyPillarType))
 		f.nat("NormalPillarType", uint64(definition.NormalPillarType))
+		f.raw("-- vm/constants/embedded.go: LiquidityStakeWeights (indexed by stakingTime / StakeTimeUnitSec)\n")
+		w := make([]uint64, len(constants.LiquidityStakeWeights))
+		for i, x := range constants.LiquidityStakeWeights {
+			w[i] = uint64(x)
+		}
+		f.natList("LiquidityStakeWeights", w)
 		return f, nil
 	})
 }
